@@ -190,7 +190,7 @@ IO_TABLE_MODULES = ("bionumpy.io.file_buffers", "bionumpy.io.delimited_buffers",
                     "bionumpy.io.parser", "bionumpy.io.npdataclassreader")
 
 
-def r3_self_array_writes(ctx, modules=None):
+def r3_self_array_writes(ctx, modules=None, floor=None):
     """`modules`: restrict to writes located in these modules (used when the clause is shared with the file-format properties: the tables of a buffer /
     extractor / lazy table are shared between a table and its selections)"""
     an = _analysis(ctx)
@@ -210,7 +210,7 @@ def r3_self_array_writes(ctx, modules=None):
             ok = (key[0], key[1], ws.target[1]) in ALLOWED_SELF_WRITES
             ctx.ob(ws.where, f"{key[0]}:{key[1]} may not write in place into the receiver's array `self.{ws.target[1]}` (only explicit mutators and initialisers do)",
                    ok, f"[{ws.kind}] `{ws.stmt}`" + (f" via {ws.via}" if ws.via else ""), key=f"C20-R3|{key[0]}|{key[1]}|{ws.target[1]}")
-    ctx.floor("in-place writes into receiver arrays", n, 10 if modules is None else 2)
+    ctx.floor("in-place writes into receiver arrays", n, (10 if modules is None else 2) if floor is None else floor)
 
 
 def r4_cow_views_and_dead_writers(ctx):
@@ -435,6 +435,10 @@ from ..through_time import make_rule as _mk_tt, make_t2 as _mk_t2
 _through_time = _mk_tt("C20")
 _small_edits = _mk_t2("C20")
 
+def _pass_through_decision(ctx):
+    from .c04 import r1_pass_through
+    r1_pass_through(ctx)                   # reading a column must not change what a later write emits for it
+
 RULES = [
     ("C20-R1", r1_param_mutators),
     ("C20-R2", r2_private_mutator_call_sites),
@@ -447,4 +451,5 @@ RULES = [
     ("C20-R9", r9_mutable_defaults),
     ("C20-T1", _through_time),
     ("C20-T2", _small_edits),
+    ("C20-R10", _pass_through_decision),
 ]
